@@ -48,7 +48,7 @@ CTX_VI = "{[valid |-> TRUE, tst |-> FALSE], [valid |-> FALSE, tst |-> FALSE]}"
 
 def configs(tier):
     th = tier == "thorough"
-    deep = dict(MAXCALLS=3, MAXWRITES=2) if th else {}
+    deep = dict(MAXCALLS=3, MAXWRITES=1) if th else {}   # 3 calls + 2 writes: 290 k edges for buf-events alone
     both_spare = bufinit(b1=buf([T1], True), b2=buf([T2], True))
     mixed = bufinit(b1=buf([T1], True), b2=buf([T2, T3], False))
     cfgs = []
